@@ -647,11 +647,13 @@ pub struct Opts {
     pub obs: bool,
     /// every node's output is paired with a fresh drop-tracked value created by a `map` (C19)
     pub track: bool,
+    /// every repetition / separated list is driven through an explicit `.clone()` of the iterable parser
+    pub clone_iter: bool,
 }
 
 impl Default for Opts {
     fn default() -> Self {
-        Opts { wrap: true, slice: false, obs: false, track: false }
+        Opts { wrap: true, slice: false, obs: false, track: false, clone_iter: false }
     }
 }
 
@@ -678,6 +680,15 @@ fn pair2(a: Val, b: Val) -> Val {
 /// Build the iterable parser for a `Rep`/`Sep`/`CtxRep` node from the given item parser, bind it to
 /// `$it` and evaluate `$body` (once per way of supplying the bounds, since the types differ).
 macro_rules! with_iter {
+    // `clone_iter`: the iterable parser is driven through an explicit `.clone()` of itself
+    (@go $env:expr, $it:ident, $body:expr) => {{
+        if $env.o.clone_iter {
+            let $it = $it.clone();
+            $body
+        } else {
+            $body
+        }
+    }};
     ($g:expr, $env:expr, $item:expr, $it:ident => $body:expr) => {{
         let g: &G = $g;
         let lo = g.p.lo as usize;
@@ -692,11 +703,11 @@ macro_rules! with_iter {
                             Some(h) => rep.at_most(h),
                             None => rep,
                         };
-                        $body
+                        with_iter!(@go $env, $it, $body)
                     }
                     Via::Exactly => {
                         let $it = rep.exactly(lo);
-                        $body
+                        with_iter!(@go $env, $it, $body)
                     }
                     Via::Configure => {
                         let $it = rep.configure(move |cfg, _ctx: &Val| {
@@ -706,11 +717,11 @@ macro_rules! with_iter {
                                 None => cfg,
                             }
                         });
-                        $body
+                        with_iter!(@go $env, $it, $body)
                     }
                     Via::ConfigureExactly => {
                         let $it = rep.configure(move |cfg, _ctx: &Val| cfg.exactly(lo));
-                        $body
+                        with_iter!(@go $env, $it, $body)
                     }
                     Via::MixedLo => {
                         let rep = match hi {
@@ -718,21 +729,21 @@ macro_rules! with_iter {
                             None => rep,
                         };
                         let $it = rep.configure(move |cfg, _ctx: &Val| cfg.at_least(lo));
-                        $body
+                        with_iter!(@go $env, $it, $body)
                     }
                     Via::MixedHi => {
                         let h = hi.expect("MixedHi needs an upper bound");
                         let $it = rep.at_least(lo).configure(move |cfg, _ctx: &Val| cfg.at_most(h));
-                        $body
+                        with_iter!(@go $env, $it, $body)
                     }
                     Via::Override => {
                         let h = hi.expect("Override needs an upper bound");
                         let $it = rep.at_least(lo + 1).at_most(h.saturating_sub(1)).configure(move |cfg, _ctx: &Val| cfg.at_least(lo).at_most(h));
-                        $body
+                        with_iter!(@go $env, $it, $body)
                     }
                     Via::OverrideExactly => {
                         let $it = rep.at_most(1).configure(move |cfg, _ctx: &Val| cfg.exactly(lo));
-                        $body
+                        with_iter!(@go $env, $it, $body)
                     }
                     Via::ConfigureNoop => {
                         let rep = rep.at_least(lo);
@@ -741,7 +752,7 @@ macro_rules! with_iter {
                             None => rep,
                         };
                         let $it = rep.configure(move |cfg, _ctx: &Val| cfg);
-                        $body
+                        with_iter!(@go $env, $it, $body)
                     }
                 }
             }
@@ -759,7 +770,7 @@ macro_rules! with_iter {
                         cfg.exactly(n)
                     }
                 });
-                $body
+                with_iter!(@go $env, $it, $body)
             }
             Op::CtxRep => {
                 let qid = g.id;
@@ -771,7 +782,7 @@ macro_rules! with_iter {
                         Ok(cfg.exactly(n))
                     }
                 });
-                $body
+                with_iter!(@go $env, $it, $body)
             }
             Op::Sep => {
                 let sep = node(&g.kids[1], $env);
@@ -788,7 +799,7 @@ macro_rules! with_iter {
                 };
                 let s = if g.p.lead { s.allow_leading() } else { s };
                 let $it = if g.p.trail { s.allow_trailing() } else { s };
-                $body
+                with_iter!(@go $env, $it, $body)
             }
             other => panic!("with_iter on {:?}", other),
         }
